@@ -26,3 +26,5 @@ def run(res, tier, seed, replay):
     # live injector stays in effect; everything is original afterwards)
     import importlib
     importlib.import_module("props.c14").async_part(res, tier, seed + 214, 60 if tier == "quick" else 1500, False)
+    # crowded lifetimes: 9-24 installations alive in one injector
+    histlib.check_histories(res, "c02", 12 if tier == "quick" else 400, seed + 21, "full", gen=histlib.gen_crowded_history)
